@@ -2,11 +2,12 @@
 # for every fix: commit, re-introduce the defect (reverse patch) in /repo's working tree, run the named
 # checks, and restore the tree. prints which checks fire. usage: reverse_fix_check.sh [commit-prefix ...]
 set -u
+export VERIF_DEBUG_LAYER=1   # C12 also runs its debug-profile layer (thorough-tier layer) here
 cd /repo
 declare -A PROPS=(
  [b7c1d78]="C11" [a61ddec]="C07" [09f5995]="C07" [4f2ca0c]="C01" [5b41425]="C03" [5693425]="C13"
  [933faa5]="C16" [2a5a0d8]="C06 C12" [fcc663a]="C06 C12" [6fc4cbb]="C19" [fddc6bd]="C12" [72bbdc6]="C12"
- [4db78fb]="C12" [f40ecd0]="C19" [30335e9]="C08" [4aa31be]="C19"
+ [4db78fb]="C12" [f40ecd0]="C19" [30335e9]="C08" [4aa31be]="C19" [3c1c05e]="C12"
 )
 V=$(git log --format='%h %s' | grep "search from a vertex that is not in the graph" | cut -d' ' -f1)
 PROPS[$V]="C12"
